@@ -790,6 +790,7 @@ func (t *sourceTracer) TransitionEnd(tx *am.Transition) {
 	if !t.active {
 		return
 	}
+	verifPoint("tracer.endCollect", s)
 
 	// init cache
 	allStates := tx.Machine.StateNames()
